@@ -6,3 +6,29 @@ claim("C08",
       "Trusted: numpy interpolation as the reference for piecewise-linear curves; deepcopy of ProblemTable is faithful (plain numpy buffer). Row 0's interval width is not constrained.",
       "explicit-state BFS over operation histories on the real ProblemTable, canonical-state de-duplication, invariant + reference model in every state",
       "DESIGN.md section 4 C08")
+
+claim("C01",
+      "Exhaustive enumeration of every multiset of <=3 streams over a K=4 (quick) / K=5 (thorough) temperature lattice with two heat-capacity flows, contributions {0,d/2(,d)} and latent streams of either sign, executed on the real cascade seam, plus every multiset of <=2 (quick) / <=3 (thorough) streams crossed with every assignment to <=2 zones (flat, nested and suffix-clashing labels) through pinch_analysis_service; every zone's DI target at every level is compared with an independent rational-arithmetic cascade to 1e-6 of the total duty. A tolerance-edge family (bounds 4e-7..1e-4 apart) is included.",
+      "Reference model mc/ref.py (fractions.Fraction). Nothing is claimed for temperatures between lattice points or for more than 3 streams per problem.",
+      "bounded-exhaustive input enumeration on the real code against an exact rational reference cascade",
+      "DESIGN.md section 4 C01")
+claim("C02",
+      "Exhaustive enumeration of stream multisets x zone labelings (<=3 zones) x 4-8 utility sets through pinch_analysis_service; every returned record (Direct Integration, Total Process, Total Site) is checked for first-law closure against sums over the input streams, and the listed utility duties for the same net balance.",
+      "Membership reference: a stream belongs to every zone whose path is a prefix of its label. Serialised records are aligned with the zone tree by order and name.",
+      "bounded-exhaustive input/configuration enumeration on the real service, algebraic oracle from the inputs",
+      "DESIGN.md section 4 C02")
+claim("C03",
+      "All GCC shapes {0..3}^n (n<=5 quick, <=6 thorough) x all utility ladders of <=2/3 levels (every row, every mid-point, beyond both ends; isothermal and gliding; two contributions) through the real get_additional_GCCs + get_utility_targets, and lattice stream sets x zones x 8 utility sets through the service: sums equal the targets, duties non-negative, unreachable levels unused, Total Process record = per-utility sum of its zones.",
+      "At the table seam the utility temperatures are inserted as rows first, which is the pipeline's precondition (the grid is built from process and utility streams).",
+      "bounded-exhaustive shape x ladder enumeration on the real targeting code",
+      "DESIGN.md section 4 C03")
+claim("C04",
+      "Same enumeration as C03; oracle = exact pocket-free curve + exact sequential lowest-grade-first maxima (vertex enumeration of the one-variable LPs, rational arithmetic): every ladder must be feasible at the union of all breakpoints, isothermal ladders with distinct levels must carry exactly the sequential maximum; on the service seam additionally H_net_ut within [0, H_net_actual] on every row of the stored table.",
+      "Isothermal = the 0.1 K glide the service creates (modelled exactly). Optimality is demanded only of isothermal ladders, feasibility of all.",
+      "bounded-exhaustive enumeration against an exact closed-form optimum (no solver)",
+      "DESIGN.md section 4 C04")
+claim("C07",
+      "Every grand composite curve shape {0..3}^n for n<=7 (quick; n<=9 and {0..5}^7 thorough, 1.5 M shapes) on 2-3 temperature spacings through the real pocket-removal code, compared as FUNCTIONS with the exact pocket-free curve on the union of table rows and exact breakpoints; row at every closing temperature, zero between pinches, ends, load-profile monotonicity; plus the service seam on all 3-stream multisets.",
+      "Reference mc/ref.py PocketFree in rational arithmetic; service tables are compared in the rigorous interval form for their documented 4-dp rounding.",
+      "bounded-exhaustive shape enumeration against an exact reference curve",
+      "DESIGN.md section 4 C07")
